@@ -34,8 +34,36 @@ def tx_types(ctx):
                 for it in im2["items"]:
                     if it["kind"] == "fn":
                         helpers[it["name"]] = ctx.world.body(it["def"])
-        out[name] = {"adt": adt, "encode": ctx.world.body(enc[0]["def"]), "helpers": helpers}
+        # Private plumbing (a free function of the module such as `opt_len(&self.field)`, an inherent method that is
+        # neither a length-prefix helper nor the flags byte nor a predicate, e.g. `encode_reason_and_properties`) is
+        # looked at in place: encode() and every role helper are flattened with exactly that plumbing inlined.
+        module = adt.rsplit("::", 1)[0] + "::"
+        roles_ = set(ROLE_HELPERS)
+        inherent = {strip_generics(b_.path): h_ for h_, b_ in helpers.items()}
+
+        def kept(p_, module=module, adt=adt, inherent=inherent, roles_=roles_):
+            sp = strip_generics(p_.replace("::{closure#0}", ""))
+            if sp in inherent:
+                h_ = inherent[sp]
+                f_ = ctx.facts.fn(p_)
+                pred = f_ is not None and f_.get("sig_out") in ("bool", "u8") and len(f_.get("sig_in") or []) == 1
+                return h_ in roles_ or pred
+            f_ = ctx.facts.fn(p_)
+            if f_ is not None and f_["kind"] == "fn" and sp.startswith(module) and sp.count("::") == module.count("::") and not f_.get("impl_self"):
+                return False            # free function of the same module
+            if f_ is not None and f_["kind"] == "closure":
+                return False
+            return True
+        fenc = ctx.flat_with(ctx.world.body(enc[0]["def"]), kept, "tx:" + adt)
+        fhelpers = {}
+        for h_, b_ in helpers.items():
+            if h_ in roles_ or (b_.fn.get("sig_out") in ("bool", "u8") and len(b_.fn.get("sig_in") or []) == 1):
+                fhelpers[h_] = ctx.flat_with(b_, kept, "tx:" + adt)
+        out[name] = {"adt": adt, "encode": fenc, "helpers": fhelpers, "all_methods": helpers}
     return out
+
+
+ROLE_HELPERS = ("remaining_len", "property_len", "will_property_len", "payload_len", "packet_len", "payload_flags", "fixed_hdr")
 
 
 def self_fields(body, atoms, adt):
